@@ -24,6 +24,8 @@ import keyword
 import numpy as np
 from harness import common as C
 
+USES_MODELS = ['C05']   # Binning.targetBins / fluxBindown: which bins a FluxBinner built from a request bins to
+
 # source tie (harness/translate.py, dialect 'dyn'): the recursive writer, the HDF5 group methods, the spectrum dictionaries, the
 # loaders (generic, per component, chemistry, whole model, file level) and component `write` methods (temperature, chemistry,
 # model, star, planet, pressure, gas profiles, contributions), regenerated on every run into lean/TaurexModel/Gen/SrcC16.lean and proved equal to the functions of
@@ -1097,6 +1099,14 @@ def gen_spectrum_case(rng, k):
         width = np.minimum(np.gradient(grid), (b - a) / nb) * rng.uniform(0.2, 1.0, nb)
     kind = ['flux', 'simple', 'native'][k % 3]
     size = [1, 3, 6, 0, 2, 4, 5, 7][(k // 3) % 8]
+    if kind == 'flux' and (k // 3) % 3 != 0:
+        # quota: the bins are REQUESTED in another order than ascending wavenumber (listed by ascending wavelength, or in the
+        # order of the instrument channels), two thirds of these with their own non-uniform widths
+        if (k // 3) % 3 == 1 or width is None and rng.random() < 0.5:
+            width = np.minimum(np.gradient(grid), (b - a) / nb) * rng.uniform(0.2, 1.0, nb)
+        o = np.arange(nb)[::-1] if rng.random() < 0.5 else rng.permutation(nb)
+        grid = grid[o]
+        width = None if width is None else width[o]
     return dict(stream='spectrum', kind=kind, size=size, wn=wn, flux=flux, tau=tau, grid=grid, width=width,
                 enum=bool(rng.random() < 0.7))
 
@@ -1161,6 +1171,8 @@ def _eval_spectrum(ctx, scratch, c, binner=None, whole_case=None):
         ctx.check_close('spectrum entry ' + k, a.ravel(), b.ravel(), case, rel=1e-12, abs_=0.0)
     # ---- the property's identities, on the produced dictionary
     judge_spectrum(ctx, out, fresh, kind, size, tau, case)
+    if kind == 'flux' and not reused:
+        judge_requested_bins(ctx, out, wn, flux, tau, grid, width, size, case, small)
     # bin_model of the (possibly reused) instance = a fresh binner applied to the same result
     try:
         bm = binner.bin_model((wn, flux, tau, None))
@@ -1174,6 +1186,68 @@ def _eval_spectrum(ctx, scratch, c, binner=None, whole_case=None):
     except Exception as e:  # noqa
         ctx.violation('bin_model-raises:' + kind, 'bin_model raised %r' % (e,), case)
     return out
+
+
+def judge_requested_bins(ctx, out, wn, flux, tau, grid, width, size, case, small):
+    """a FluxBinner built from a REQUEST (bin centres in any order, optionally one width per centre): the stored dictionary
+    describes those very bins - centre i keeps width i (Binning.targetBins: the request sorted by centre, a permutation of the
+    (centre, width) pairs; C05 sortBy_perm / perm_target), the wavelength width is that width converted at that centre, and the
+    binned spectrum / optical depth are those of the same bins requested in ascending order"""
+    asc = bool(np.all(np.diff(grid) > 0))
+    ctx.bucket('spectrum:flux:request-%s:%s' % ('ascending' if asc else 'unsorted',
+                                                'explicit-widths' if width is not None else 'default-widths'))
+    if len(np.unique(grid)) != len(grid):
+        return
+    # model: Binning.targetBins on the request, fluxBindown of the stored native spectrum on them
+    d = ctx.model('C05').call('c05.flux', C.N(0), C.L(wn), C.L([]), C.LL([list(flux)]), C.LL([]),
+                              *([C.N(0)] if width is None else [C.N(2)]), C.L(grid), C.L([] if width is None else width))
+    mg, mw = np.array(d.list()), np.array(d.list())
+    mb = [np.array(x) for x in d.list(d.list)]
+    d.list(d.list)
+    m_ordered = d.bool()
+    if 'binned_wngrid' in out and 'binned_wnwidth' in out:
+        ctx.check_close('binned_wngrid vs Binning.targetBins of the request', np.asarray(out['binned_wngrid'], float), mg, case,
+                        rel=0, abs_=0)
+        ctx.check_close('binned_wnwidth vs Binning.targetBins of the request', np.asarray(out['binned_wnwidth'], float), mw, case,
+                        rel=1e-15)
+        if m_ordered and 'binned_spectrum' in out and len(mb) == 1:
+            ctx.check_close('binned_spectrum vs Binning.fluxBindown on the requested bins', np.asarray(out['binned_spectrum'], float),
+                            mb[0], case, rel=1e-9, abs_=1e-12 * float(np.max(np.abs(flux))))
+    # the property's predicates on the real code alone
+    for k in ('binned_wngrid', 'binned_wnwidth', 'binned_wlwidth', 'binned_spectrum'):
+        if k not in out:
+            return
+    b_wn, b_w, b_wlw = (np.asarray(out[k], float) for k in ('binned_wngrid', 'binned_wnwidth', 'binned_wlwidth'))
+    if width is not None:
+        for c, w in zip(grid, width):
+            j = np.where(b_wn == c)[0]
+            if len(j) != 1:
+                ctx.violation('requested-bin-missing:flux', 'the bin requested at %r cm-1 is not in binned_wngrid' % float(c), case)
+                return
+            j = int(j[0])
+            if b_w[j] != w or not C.close([b_wlw[j]], [10000 * w / c ** 2], rel=1e-13, abs_=0.0):
+                ctx.violation('binned-width-of-another-bin:flux',
+                              'the bin requested with centre %r and width %r cm-1 is stored with binned_wnwidth %r and '
+                              'binned_wlwidth %r (its width converted at its centre: %r)'
+                              % (float(c), float(w), float(b_w[j]), float(b_wlw[j]), float(10000 * w / c ** 2)), case,
+                              dict(requested=dict(centres=grid, widths=width), stored=dict(binned_wngrid=b_wn, binned_wnwidth=b_w)))
+                return
+    o = np.argsort(grid, kind='stable')
+    ref = make_binner('flux', grid[o], None if width is None else width[o])
+    r = ref.bindown(wn, flux)
+    if not (np.shape(r[1]) == np.shape(out['binned_spectrum']) and
+            C.close(np.ravel(out['binned_spectrum']), np.ravel(r[1]), rel=1e-13, abs_=0.0)):
+        ctx.violation('binned-not-bindown-of-requested-bins:flux',
+                      'binned_spectrum is not the binning of the stored native spectrum to the requested bins (the same bins '
+                      'requested in ascending order give another result)', case,
+                      dict(stored=out['binned_spectrum'], ascending_request=r[1]))
+        return
+    if 'binned_tau' in out:
+        rt = ref.bindown(wn, tau)[1]
+        if not (np.shape(rt) == np.shape(out['binned_tau']) and C.close(np.ravel(out['binned_tau']), np.ravel(rt), rel=1e-13,
+                                                                         abs_=0.0)):
+            ctx.violation('binned-tau-not-bindown-of-requested-bins:flux',
+                          'binned_tau is not the binning of the optical depth to the requested bins', case)
 
 
 def judge_spectrum(ctx, out, fresh, kind, size, tau, case, prefix=''):
@@ -1449,6 +1523,14 @@ def gen_model_spec(rng, k):
             dict(fill_gases=['H2', 'He', 'N2'], ratio=[rnd(rng, 0.05, 0.3), rnd(rng, 0.001, 0.05)])][int(rng.integers(4))]
     gases = []
     mols = [str(x) for x in rng.permutation(MOLS)][:int(rng.integers(1, 4))]
+    if k % 5 == 2:
+        # quota: a fill gas that is itself an absorber with cross-sections loaded (a CO2- or CH4-dominated secondary
+        # atmosphere): `active_gases` of the written chemistry then names a molecule that has no gas profile of its own
+        act = mols[-1]
+        mols = mols[:-1]
+        fill = [dict(fill_gases=act), dict(fill_gases=['N2', act], ratio=rnd(rng, 0.05, 0.9)),
+                dict(fill_gases=[act, 'He'], ratio=rnd(rng, 0.05, 0.3)),
+                dict(fill_gases=['H2', 'He', act], ratio=[rnd(rng, 0.05, 0.3), rnd(rng, 0.001, 0.05)])][int(rng.integers(4))]
     extra = [m for m in ['CO', 'NH3'] if rng.random() < 0.3]
     want_hm = rng.random() < 0.25
     if want_hm:
@@ -1710,6 +1792,9 @@ def _eval_model(ctx, scratch, spec, stream='model'):
              sample=dict(stream=stream, model=spec['model'], temperature=spec['temperature']['cls'],
                          contributions=[c['cls'] for c in spec['contributions']]),
              bucket='%s:%s' % (stream, label))
+    fg = (spec['chemistry'].get('kw') or {}).get('fill_gases', [])
+    if any(x in MOLS for x in ([fg] if isinstance(fg, str) else list(fg))):
+        ctx.bucket('%s:fill-gas-is-an-absorber:%d-fill-gases' % (stream, 1 if isinstance(fg, str) else len(fg)))
     culprit = spec.get('culprit')
     try:
         with HDF5Output(fn) as o:
@@ -1725,6 +1810,14 @@ def _eval_model(ctx, scratch, spec, stream='model'):
         bgrid = np.linspace(WN_OPAC[2], WN_OPAC[-3], 9)
         binner = make_binner(spec.get('binner', 'native'), bgrid, None)
         profiles = m.generate_profiles()
+        if any(v is None for v in profiles.values()):
+            # TODO (genuine defect of /repo, reported to the coordinator, NOT judged): a chemistry in which every gas is an
+            # absorber (absorbing fill gas + active trace gases, no inactive gas at all) has inactiveGasMixProfile = None;
+            # generate_profiles() puts that None under 'inactive_mix_profile' and store_dictionary raises
+            # ValueError("Cannot save <class 'NoneType'> type"): the program cannot write its output.  The None entries are
+            # left out so that the rest of the file (spectra, reload) is still judged.
+            ctx.bucket('TODO-finding:no-inactive-gas:Output/Profiles-holds-None:not-judged')
+            profiles = {kk: v for kk, v in profiles.items() if v is not None}
         spectrum = binner.generate_spectrum_output(res, output_size=size)
         try:
             spectrum['Contributions'] = store_contributions(binner, m, output_size=size - 3)
@@ -2173,6 +2266,8 @@ def run(ctx):
 
 
 def replay(ctx, case):
+    if 'stream' not in case and isinstance(case.get('case'), dict):
+        case = case['case']          # a replay file written by main.py wraps the case
     scratch = Scratch()
     try:
         s = case.get('stream')
